@@ -15,6 +15,8 @@
 //!    bytecode, and on hostile IFT mapping tables / patches; outcome must be value / absence / error.
 #[path = "c02/charstring.rs"]
 mod charstring;
+#[path = "c02/stress.rs"]
+mod stress;
 
 use fv_harness::common::*;
 use read_fonts::types::{F2Dot14, GlyphId, Tag};
@@ -2187,6 +2189,7 @@ fn child_request(line: &str) -> String {
             battery_cross(&a, &b, seed, &mut rep);
             finish_report(rep, "")
         }
+        "stress" => stress::child(&t[1..]),
         "ift-bigcap" if t.len() == 2 => ift_bigcap_case(t[1].parse().unwrap_or(29)),
         "brotli" if t.len() == 2 => {
             let seed: u64 = t[1].parse().unwrap_or(0);
@@ -2653,11 +2656,49 @@ fn run(cfg: &Config, s: &mut Session) {
             record(s, "brotli-decoder-total", j, r);
         }
     }
+
+    // ---- 5. depth / size stress and capacity boundaries (synthetic inputs, small explicit stack): see c02/stress.rs
+    let sj = stress_jobs(&mut rng, thorough);
+    let reqs: Vec<String> = sj.iter().map(|j| j.req.clone()).collect();
+    let res = run_jobs(&reqs, cap, nworkers);
+    for (j, r) in sj.iter().zip(res.iter()) {
+        let fam = j.req.split_whitespace().nth(1).unwrap_or("?");
+        let class = r.split_whitespace().next().unwrap_or("?");
+        s.count(&format!("stress:{fam}:{class}"));
+        let ok = r.starts_with("ok");
+        let site = r.split("at=[").nth(1).and_then(|x| x.split(']').next()).unwrap_or("-").to_string();
+        let req: String = if j.req.len() > 3000 { format!("{}…({} chars)", &j.req[..3000], j.req.len()) } else { j.req.clone() };
+        s.oracle(j.oracle, ok, || format!("{req} :: at={site} :: kind={class}"), || r.chars().take(400).collect());
+    }
+}
+
+fn stress_jobs(rng: &mut Rng, thorough: bool) -> Vec<stress::Job> {
+    let mut sj: Vec<stress::Job> = vec![];
+    sj.extend(stress::colr_jobs(thorough));
+    sj.extend(stress::ift2_jobs(thorough));
+    sj.extend(stress::cffhint_jobs(rng, thorough));
+    sj.extend(stress::glyfnest_jobs(thorough));
+    sj.extend(stress::cffsubr_jobs(thorough));
+    sj.extend(stress::ttlimit_jobs(rng, thorough));
+    sj.extend(stress::shape_jobs(thorough));
+    sj.extend(stress::gvar_jobs(thorough));
+    sj.extend(stress::strings_jobs(thorough));
+    sj.extend(stress::ifturi_jobs(thorough));
+    sj.extend(stress::iftapply_jobs(thorough));
+    sj
 }
 
 fn main() {
     if std::env::args().nth(1).as_deref() == Some("--child") {
         child_main();
+        return;
+    }
+    if std::env::args().nth(1).as_deref() == Some("--list-stress") {
+        // development aid: the request lines of the stress families (quick tier, or `thorough` as 2nd argument)
+        let thorough = std::env::args().nth(2).as_deref() == Some("thorough");
+        for j in stress_jobs(&mut Rng::new(1), thorough) {
+            println!("{}\t{}", j.oracle, j.req);
+        }
         return;
     }
     fv_harness::main_with("C02", run)
